@@ -24,7 +24,8 @@ LineKinds == {"table_head", "column", "note_line", "note_head", "note_text", "in
 
 FaultKinds == <<"illegal_char_line", "stray_identifier_line", "stray_comma_line", "delete_close_brace", "duplicate_close_brace",
                 "delete_open_brace", "unterminated_string", "column_without_type", "unknown_setting", "unknown_index_type",
-                "bad_ref_operator", "bad_action", "bad_colour", "text_after_close_brace", "delete_open_bracket", "delete_close_bracket">>
+                "bad_ref_operator", "bad_action", "bad_colour", "text_after_close_brace", "delete_open_bracket", "delete_close_bracket",
+                "duplicate_open_bracket", "duplicate_close_bracket">>
 
 \* site = [ctx, kind, feats] : the line the fault is applied to (insertions go BEFORE that line, in its block)
 Has(site, f) == \E i \in DOMAIN site.feats : site.feats[i] = f
@@ -47,6 +48,9 @@ ProvablyInvalid(fault, site) ==
     [] fault = "bad_colour" -> Has(site, "colour")
     [] fault = "delete_open_bracket" -> Has(site, "settings")
     [] fault = "delete_close_bracket" -> Has(site, "settings")
+    \* brackets never nest in DBML outside literals: one more of either kind, anywhere a bracket stands, is unreadable
+    [] fault = "duplicate_open_bracket" -> Has(site, "brackets_outside_literals")
+    [] fault = "duplicate_close_bracket" -> Has(site, "brackets_outside_literals")
     [] OTHER -> FALSE
 
 \* the only outcome a parse of a provably invalid text may have
